@@ -5,7 +5,8 @@ from sym import Explorer, explore, show, subterms, lin
 from pat import called, canon, is_call, deref_all, agg_variant, const_of, strip_casts
 from pathfacts import PathFacts, IntervalSet, INF
 from mir import natural_loops, callee_name
-from rules import recursion, safety, intarith
+from rules import recursion, safety, intarith, editing
+from rules.layout import cv
 from panics import base_of
 
 SEL = "jsonpath::selector::Selector::<'a>::"
@@ -71,6 +72,76 @@ def r08_4(ctx, run, rule='R08.4'):
         else:
             run.proved(rule, b.path, 'range-postcondition', 'every returned position is proven to lie in [0, length) from the path conditions', loc)
     run.floor(rule, 'return paths of convert_index/convert_slice', n, 8)
+    # the proof above takes length >= 1 as given (convert_slice clamps an over-long end to `length - 1`): every caller must establish it
+    ncall = 0
+    for p_, b_ in sorted(f.bodies.items()):
+        if not p_.startswith('jsonpath::selector::') or b_.kind == 'Promoted':
+            continue
+        paths_, loops_ = editing.region_paths(b_)
+        verdict = {}
+        for q in paths_:
+            for e in q.calls():
+                if not (canon(e[1]) == canon(SEL + 'convert_slice') and e[2]):
+                    continue
+                L = strip_casts(deref_all(e[2][-1]))
+                pf = PathFacts(q.conds[:e[6]], nonneg=lambda a: True, typed=lambda a: IntervalSet([(0, INF)]))
+                if pf.infeasible():
+                    continue
+                try:
+                    r = pf.range_of_term(L)
+                except Exception:
+                    r = None
+                line = e[5].get('line')
+                if not (r is not None and not r.empty() and r.lo() >= 1) and q.blocks and q.blocks[0] != 0 and L[0] in ('init', 'hav') and isinstance(L[1], int):
+                    # inside a loop: the local is not assigned in the loop, so its value is the one the entry paths reach the loop head with
+                    head = q.blocks[0]
+                    assigned_in_loop = any(st_.get('k') == 'assign' and st_['place']['local'] == L[1] and not st_['place'].get('proj')
+                                           for bb_ in loops_.get(head, ()) for st_ in b_.blocks[bb_]['stmts'])
+                    ins = [q0 for q0 in paths_ if q0.blocks and q0.blocks[0] == 0 and q0.end == ('stop', head)]
+                    if ins and not assigned_in_loop:
+                        allok = True
+                        anyguard = False
+                        for q0 in ins:
+                            v0 = q0.store.get(('L', L[1]))
+                            if v0 is None:
+                                allok = False
+                                continue
+                            v0 = strip_casts(deref_all(v0))
+                            pf0 = PathFacts(q0.conds, nonneg=lambda a: True, typed=lambda a: IntervalSet([(0, INF)]))
+                            try:
+                                r0 = pf0.range_of_term(v0)
+                            except Exception:
+                                r0 = None
+                            if not (r0 is not None and not r0.empty() and r0.lo() >= 1):
+                                allok = False
+                                if any(v0 in set(subterms(c[0])) for c in q0.conds):
+                                    anyguard = True
+                        if allok:
+                            verdict.setdefault(line, 'ok')
+                            continue
+                        if not anyguard and all(q0.store.get(('L', L[1])) is not None for q0 in ins):
+                            verdict[line] = 'bad'
+                            continue
+                if r is not None and not r.empty() and r.lo() >= 1:
+                    verdict.setdefault(line, 'ok')
+                else:
+                    mentioned = any(L in set(subterms(c[0])) for c in q.conds[:e[6]])
+                    # the guard may sit in an earlier region (before a loop head): only a path from the function entry is conclusive
+                    if q.blocks and q.blocks[0] == 0 and not mentioned:
+                        verdict[line] = 'bad'
+                    elif verdict.get(line) != 'bad':
+                        verdict[line] = 'unsure' if verdict.get(line) != 'ok' or True else 'ok'
+        for line, v in sorted(verdict.items(), key=str):
+            ncall += 1
+            loc = f'{b_.file}:{line or b_.line}'
+            d = f'precondition[convert_slice length >= 1]@{ncall - 1}'
+            if v == 'ok':
+                run.proved(rule, p_, d, 'the array length passed is proven non-zero on the path to the call', loc)
+            elif v == 'bad':
+                run.violation(rule, p_, d, 'convert_slice is called with a length that was never tested against 0: for an empty array it clamps the range end to `length - 1` = -1, '
+                              'cast to usize a huge index (capacity overflow / out-of-range indices)', loc)
+            else:
+                run.undecided(rule, p_, d, 'whether the length passed to convert_slice is non-zero could not be established from the conditions on this path', loc)
 
 
 ORDS = {'Less': -1, 'Equal': 0, 'Greater': 1}
@@ -353,8 +424,48 @@ def r08_9(ctx, run, rule='R08.9'):
             run.undecided(rule, p, 'scalar-pass-through', 'no step loop re-queues scalar positions for [*]: the lax wildcard is implemented in a way this rule does not read', loc)
 
 
+def r08_12(ctx, run, rule='R08.12'):
+    """`[*]` in lax mode passes a non-array through unchanged: select_array_values may finish without recording any position
+    only after it has established that the value *is* an array (an empty one)."""
+    f = ctx.facts
+    fn = SEL + 'select_array_values'
+    b = f.bodies.get(fn)
+    if b is None:
+        run.undecided(rule, fn, 'pass-through', 'function not found (anchor lost)')
+        return
+    ARR = cv(f, 'ARRAY_CONTAINER_TAG')
+    paths, loops = editing.region_paths(b)
+    loc = f'{b.file}:{b.line}'
+    def array_established(q):
+        for c in q.conds:
+            t = c[0]
+            if t[0] == 'bin' and t[1] in ('Eq', 'Ne') and any(const_of(x) == ARR for x in (t[2], t[3])) and isinstance(c[2], bool):
+                if (t[1] == 'Eq') == c[2]:
+                    return True
+            elif c[1] == 'eq' and c[2] == ARR:
+                return True
+        return False
+    n = 0
+    bad = 0
+    from rules.buffers import is_err_return
+    for q in paths:
+        if q.end[0] != 'return' or not q.blocks or q.blocks[0] != 0 or is_err_return(q):
+            continue
+        n += 1
+        pushed = any(called(e[1], 'VecDeque::push_back', 'VecDeque::push_front', 'VecDeque::extend') for e in q.calls())
+        if not pushed and not array_established(q):
+            bad += 1
+    if not n:
+        run.undecided(rule, fn, 'pass-through', 'no straight-line return path from the function entry was found (restructured?): not decided', loc)
+    elif bad:
+        run.violation(rule, fn, 'pass-through', f'{bad} path(s) return successfully without recording a position and without having tested that the value is an array: '
+                      'a non-array reached by `[*]` (an empty object, a scalar root, whose header length is also 0) is dropped instead of passed through', loc)
+    else:
+        run.proved(rule, fn, 'pass-through', f'{n} direct return path(s): each records the value itself or follows the is-array test', loc)
+
+
 def check(ctx, run):
-    run.rules_run = ['R08.1', 'R08.2', 'R08.3', 'R08.4', 'R08.5', 'R08.6', 'R08.7', 'R08.8', 'R08.9']
+    run.rules_run = ['R08.1', 'R08.2', 'R08.3', 'R08.4', 'R08.5', 'R08.6', 'R08.7', 'R08.8', 'R08.9', 'R08.10', 'R08.11', 'R08.12']
     cone = recursion.no_todo(ctx, run, 'R08.1', ROOTS, floor_roots=8)
     is_root = lambda body, base: deref_all(base)[0] in ('init',) and (body.name_of(deref_all(base)[1]) in ('root', 'input'))
     safety.panic_inventory(ctx, run, 'R08.2', ROOTS[:3], floor=15, trust_doc=is_root, only=lambda p: p.startswith('jsonpath::selector::'))
@@ -366,6 +477,7 @@ def check(ctx, run):
     r08_7(ctx, run)
     recursion.rrec(ctx, run, 'R08.8', ROOTS[:3], {'path-expr', 'path-ast'}, 'recursion of the evaluator on the depth of the filter expression', floor=1)
     r08_9(ctx, run)
+    r08_12(ctx, run)
     safety.forbidden_calls(ctx, run, 'R08.10', [SEL + 'select'], ('slice::sort', 'slice::sort_unstable', 'slice::sort_by', 'slice::sort_by_key', 'slice::sort_unstable_by', 'Vec::dedup',
                                                               'Vec::dedup_by', 'Vec::dedup_by_key', 'slice::reverse', 'Vec::retain', 'BTreeSet::insert', 'HashSet::insert'),
                            'the path evaluator', 'selected items must come out in the order the path lists them, repetitions included (`$[3, 0]`, `$[1, 1]`); reordering or de-duplicating positions changes the result',
